@@ -51,7 +51,7 @@ prop(
 prop(
     "C16",
     ["DivanModel.Props.C16"],
-    [lab("sort", 4000, 150000)],
+    [lab("sort", 4000, 150000), lab("reg", 1000, 30000)],
     level_text="Theorems on all byte strings: natural_cmp is a total preorder (reflexive, antisymmetric via swap, transitive) and digit runs compare by numeric value; argument names denoting integers are ordered by value; a strict comparator admits exactly one sorted permutation (so Rust's sort algorithm cannot matter) and --sortr is its exact reverse; sorting permutes. Tied to the code by the `sort` lab: pairs/triples through the real natural_cmp (laws re-evaluated on the implementation's own answers), comparator and sort_by over argument-name lists (ints, negatives, floats, text, mixed) x 3 attributes x 2 directions against the unique model order.",
     level_note="Trusted: Lean kernel; Rust's f64 FromStr (the lab passes the parsed bits; only float comparison is modelled); slice::sort_by returns a sorted permutation for a total preorder and may panic otherwise (observed: F8). Tree-level sibling order is covered by the tree lab.",
     assumptions=["f64 parsing is Rust's", "slice::sort_by contract"],
@@ -65,5 +65,41 @@ prop(
     [lab("reg", 1500, 40000)],
     level_text="Theorems about the Lean model of the front end (Model/Prog.lean: tree construction, retain, the terse walk and the run walk with per-level option resolution): the terse listing equals, line for line, the cases the test walk executes for every tree, filter set and ignore flag; listing actions execute nothing. Tied to the code by the registry lab (random abstract programs x filters x ignore flags x actions incl. Divan::list_benches, run through the real front end in a child process; exact stdout and invocation log compared with the model; the spec 'terse lines = cases a run executes, listing calls nothing' evaluated on the implementation's own output).",
     level_note="Trusted: Lean kernel; registry lab (child-process registration through divan::__private), small regex grammar of the generator re-implemented in Lean (literal, '.', anchors, alternation); clap parsing is exercised, not modelled.",
+    trusted=REG_TRUST,
+)
+
+prop(
+    "C13",
+    ["DivanModel.Props.C13"],
+    [lab("reg", 1500, 40000)],
+    level_text="Theorems on the front-end model: for every sequence of include/exclude calls (any order/interleaving, through SplitVec::insert's element-moving) a path is selected iff no skip filter matches and (no positive filter exists or one matches); exact filters are whole-string equality; retain keeps exactly the selected cases (per argument), in order, and leaves no parent without a case below it (retainList_cases, retainList_noEmpty, selected_cases_iff). Tied to the code by the registry lab: random programs x 0-4 positive and 0-4 skip filters (exact or regex, built from real paths, inner-node-only, matching nothing) via CLI and builder; executed set and printed tree compared with the model, and the rule re-evaluated on the implementation's invocation log from the abstract program.",
+    level_note="Trusted: Lean kernel; registry lab; regex-lite is not modelled - the generator emits a small grammar (literals, '.', ^, $, alternation) that the Lean driver re-implements; clap parsing exercised only.",
+    trusted=REG_TRUST,
+)
+
+prop(
+    "C15",
+    ["DivanModel.Props.C15"],
+    [lab("reg", 1500, 40000), lab("ovw", 3000, 100000)],
+    level_text="Theorems: BenchOptions::overwrite is field-by-field for all eleven fields; for every chain of levels and every field independently the effective value is run time, else the innermost level that sets this very field (resolve_first_some), other fields cannot mask it (field_independence); thread counts are strictly increasing and positive after normalisation (0 -> parallelism, sort, dedup); ignore semantics for the three flag settings; a Bencher counter replaces only its own kind. Tied to the code by the `ovw` lab (overwrite on random option pairs) and the registry lab (options at runner/bench/up to 3 group levels, via CLI, DIVAN_* environment and builder; call counts, thread branches, counter rows and (ignored) marks compared with the model and with per-field resolution recomputed from the abstract program).",
+    level_note="Trusted: Lean kernel; labs. min_time / skip_ext_time resolution is observable only through the ovw lab (overwrite), not end to end; clap's env fallback exercised, not modelled.",
+    trusted=REG_TRUST,
+)
+
+prop(
+    "C12",
+    ["DivanModel.Props.C12"],
+    [lab("reg", 1500, 40000)],
+    level_text="Theorems on the tree-building model (EntryList order, from_benches/insert_entry, insert_group): every registered plain benchmark and generic instance becomes exactly one leaf below parents named by its path components (buildTree_leaves, a multiset equality), bench_group entries add no leaf, and the placed-leaf multiset is invariant under any permutation of the registration order (order_independent). Tied to the code by the registry lab: entries are pushed into BENCH_ENTRIES/GROUP_ENTRIES in random constructor order exactly as the macro expansion does, the real front end runs, and the executed/listed cases are compared with the model and with the expected case list computed from the abstract program (one per types x consts combination, one per argument, nothing for empty lists).",
+    level_note="Trusted: Lean kernel; registry lab. The attribute macros' own expansion (token level, module_path!, .init_array) is not modelled: the lab's child reproduces the registration calls of the expansion by hand; a generated-crate lab with the real macros is the planned complement. Name clash F7 is a recorded finding.",
+    trusted=REG_TRUST,
+)
+
+prop(
+    "C17",
+    ["DivanModel.Props.C17"],
+    [lab("reg", 1500, 40000)],
+    level_text="Theorems: slice_ptr_index(base + i*size) = i; with parallel names/args slices the case under a label gets the argument rendering to it for any surviving subset/permutation of name pointers; in the run-walk model the invocations of a benchmark with args are exactly names[i] for the surviving indices in printed order, once per thread count (label_is_value), and retain/sort only filter/permute the index list. Tied to the code by the registry lab: each benchmark body logs the value it received; the label printed on the output line of every executed case must equal it, under 3 sorts x 2 directions x filters keeping strict subsets.",
+    level_note="Trusted: Lean kernel; registry lab (arguments are Strings rendered by identity in the synthetic registration; ToString/Debug rendering by the macro, types/consts dispatch and the 'evaluated once, shared by all generic instantiations' clause need the generated-crate lab - only 'evaluated once per registered benchmark' is checked here). The TypeId check and the unchecked cast are exercised, not modelled.",
     trusted=REG_TRUST,
 )
